@@ -6,18 +6,19 @@ namespace EaselModel.Msafile
 
 /-! ## text mode -/
 
-/-- table fact: the text-mode AFA input map sends every graphic character to itself, and none of them is white space -/
+/-- table fact: the text-mode AFA input map sends every graphic character but `>` to itself, and none of them is white space -/
 def afaTextSymOk : Bool :=
   (List.range 256).all fun n =>
     let t := UInt8.ofNat n
-    !(isGraph t) || (mapByte (afaInmap none) t == (CatSt.ok, some t) && !isSpace t)
+    !(isGraph t && t != 62) || (mapByte (afaInmap none) t == (CatSt.ok, some t) && !isSpace t)
 
 theorem afaTextSymOk_true : afaTextSymOk = true := by decide +kernel
 
-theorem afa_text_sym (t : UInt8) (h : isGraph t = true) :
+theorem afa_text_sym (t : UInt8) (h : isGraph t = true) (hgt : t ≠ 62) :
     mapByte (afaInmap none) t = (.ok, some t) ∧ isSpace t = false := by
   have h1 := (List.all_eq_true.mp afaTextSymOk_true) t.toNat (List.mem_range.mpr t.toNat_lt)
-  simp only [UInt8.ofNat_toNat, h, Bool.not_true, Bool.false_or, Bool.and_eq_true, beq_iff_eq, Bool.not_eq_true'] at h1
+  have hne : (t != 62) = true := by simpa using hgt
+  simp only [UInt8.ofNat_toNat, h, hne, Bool.and_self, Bool.not_true, Bool.false_or, Bool.and_eq_true, beq_iff_eq, Bool.not_eq_true'] at h1
   exact h1
 
 /-- a text-mode alignment that aligned FASTA represents faithfully -/
@@ -44,7 +45,7 @@ theorem afaTextWritable_writable (m : Msa) (h : AfaTextWritable m) : AfaWritable
       row_sym := fun i hi t ht => by
         rw [htake i hi] at ht
         have hg := (h.row_ok i hi).2 t ht
-        have hs := afa_text_sym t hg.1
+        have hs := afa_text_sym t hg.1 hg.2
         exact ⟨by simpa [afaCfg] using hs.1, hs.2, hg.2⟩
       row_enc := fun i hi => by
         rw [htake i hi]
